@@ -512,6 +512,26 @@ func (w *World) Do(a M) bool {
 			w.regMsg(name, m)
 		}
 		f.Send(hnet.MsgRPC(m))
+	case "mkmsg":
+		// create and register a message without sending it (so that its id can be advertised first)
+		name := str(a, "m")
+		if w.Msg(name) == nil {
+			au := f
+			if x := w.Fakes[str(a, "author")]; x != nil {
+				au = x
+			}
+			size := num(a, "size")
+			if size == 0 {
+				size = 16
+			}
+			w.regMsg(name, au.NewMessage(name, t, size, true))
+		}
+	case "closeTopic":
+		if tp, ok := w.topics[t]; ok {
+			if err := tp.Close(); err == nil {
+				delete(w.topics, t)
+			}
+		}
 	case "join":
 		w.join(t, boolean(a, "fanoutOnly"))
 	case "subscribe":
@@ -656,6 +676,33 @@ func (w *World) publish(t, name string, size int, local bool) {
 		w.deliv = append(w.deliv, M{"sub": "publish-error", "topic": t, "m": name + ":" + err.Error()})
 		w.mu.Unlock()
 	}
+}
+
+// Emit writes a step line for a stimulus the caller performed itself (drivers
+// that need stimuli outside the action alphabet). The caller settles first.
+func (w *World) Emit(act M) { w.emit(act) }
+
+// Guard keeps a custom stimulus away from heartbeat instants (see guard).
+func (w *World) Guard() { w.guard() }
+
+// Topic returns the NUT's handle for a topic, joining it if necessary.
+func (w *World) Topic(t string) *pubsub.Topic { return w.join(t, false) }
+
+// Msg returns the message registered under a symbolic name (nil if none).
+func (w *World) Msg(name string) *pb.Message {
+	w.mu.Lock()
+	defer w.mu.Unlock()
+	return w.msgs[name]
+}
+
+// RegMsg registers a message the driver built itself under a symbolic name.
+func (w *World) RegMsg(name string, m *pb.Message) { w.regMsg(name, m) }
+
+// SetApp sets the application-specific score of a peer.
+func (w *World) SetApp(p peer.ID, v float64) {
+	w.mu.Lock()
+	w.app[p] = v
+	w.mu.Unlock()
 }
 
 // PeerNames returns the sorted names of the fake peers.
